@@ -120,6 +120,17 @@ def rx_oracle(ck, kind, al, sid, lines, out, npre, info):
         return
     own = OWN[al]
     prev = bl[npre - 1][-1]
+    fed = delim = 0
+    for bi in range(len(lines)):
+        w = lines[bi].split()
+        if w[0] in ("rx", "feed") and len(w) > 1 and w[-1] != "-":
+            fed += len(w[-1]) // 2
+        delim += sum(len(l.split()[1]) // 2 for l in bl[bi] if l.startswith("rxmsg "))
+        if delim > fed:
+            ck.fail("input", "oracle:rx-delimited-beyond-received:" + kind,
+                    "%s station (address width %d): %d octets have been received but frames of %d octets in total were delimited and handed on [%s: %s] -- a frame is complete only when all its octets have arrived" % (
+                        kind, al, fed, delim, info[0], info[1]), {"script": lines, "observed": bl[bi]})
+            return
     for bi in range(npre, len(lines)):
         b = bl[bi]
         msgs = [bytes.fromhex(l.split()[1]) for l in b if l.startswith("rxmsg ")]
